@@ -887,13 +887,17 @@ func (w *streamWriter) Close() error {
 	}
 
 	w.parent.inStream = false
-	for _, pair := range w.parent.afterStream {
+	// Detach the list before writing the deferred objects: a deferred stream
+	// is written through OpenStream and Close, and that nested Close must
+	// not see (and write again) the objects being processed here.
+	deferred := w.parent.afterStream
+	w.parent.afterStream = nil
+	for _, pair := range deferred {
 		err = w.parent.Put(pair.ref, pair.obj)
 		if err != nil {
 			return err
 		}
 	}
-	w.parent.afterStream = w.parent.afterStream[:0]
 
 	return nil
 }
